@@ -112,6 +112,12 @@ bool Interp::exec_coll(Interp &I, const Stmt &s)
         using S_DERR = TSD<Int, TS<NodeError>>;
         auto e = exception_time_series(Port<S_TSD>{w, m.ref});
         wire<CMirror<S_DERR>>(w, e, uid);
+        if (s.kw.count("keysuid"))
+        {
+            // the KEY SET of the error dictionary (keys that currently report an error), as a consumer would project it
+            auto ks = wire<stdlib::keys_>(w, e).template as<S_TSS>();
+            wire<CMirror<S_TSS>>(w, ks, Int{s.kwi("keysuid")});
+        }
         return true;
     }
     if (s.op == "mesh")
